@@ -179,6 +179,16 @@ def mask_spec(draw, n, kinds=("none", "bool", "slice", "pos"), negative_pos=True
 
 
 @st.composite
+def warm(draw):
+    """0-2 earlier operations on the grouping object (see gbops.warm_up); empty in two thirds of the cases"""
+    from .gbops import WARM_OPS
+
+    if draw(st.sampled_from([True, False, False])):
+        return draw(st.lists(st.sampled_from(WARM_OPS), min_size=1, max_size=2))
+    return []
+
+
+@st.composite
 def keys(draw, n, nkeys=(1, 3), types=KEY_TYPES, allow_null=True, max_labels=6, named=True):
     k = draw(st.integers(*nkeys))
     out = []
